@@ -438,6 +438,12 @@ EnvExt(op) ==           \* op.id, op.b = <<>> (removed) or <<bytes>>
     /\ ext' = IF op.b = <<>> THEN Del(ext, op.id) ELSE Upd(ext, op.id, op.b[1])
     /\ UNCHANGED <<buckets, store, tmp, hasIndex, hd, res>>
 
+\* a file that is no key's bucket appears under index-v5 (.DS_Store, an .nfs leftover, a README
+\* someone dropped there): no lookup, listing or removal may be affected by it
+EnvStray(op) ==
+    /\ hasIndex' = TRUE
+    /\ UNCHANGED <<buckets, store, ext, tmp, hd, res>>
+
 (* ---- dispatch -------------------------------------------------------------------------- *)
 
 Do(op) ==
@@ -468,6 +474,7 @@ Do(op) ==
       [] op.op = "env_content"  -> EnvContent(op)
       [] op.op = "env_bucket"   -> EnvBucket(op)
       [] op.op = "env_ext"      -> EnvExt(op)
+      [] op.op = "env_stray"    -> EnvStray(op)
 
 Init == /\ buckets = EmptyFn /\ store = EmptyFn /\ ext = EmptyFn /\ tmp = 0
         /\ hasIndex = FALSE /\ hd = EmptyFn /\ res = Ok("init")
